@@ -43,7 +43,8 @@ def get_core_features(feature_model: FeatureModel) -> list[Feature]:
     while features:
         feature = features.pop()
         for relation in feature.get_relations():
-            if relation.is_mandatory():
+            if relation.is_mandatory() or relation.card_min == len(relation.children):
+                # all the children of the relation have to be selected
                 core_features.extend(relation.children)
                 features.extend(relation.children)
 
